@@ -32,8 +32,8 @@ def pool_check(title, text, parts, ref, technique=None, note=None):
 
 CHECKS = {
     "C01": pool_check("Every task handed to a ThreadPool runs exactly once",
-                      "Generated multi-producer programs over schedule / schedule(FQ) / scheduleBulk (external and in-pool producers, pools of 0-6 threads, wake and poll mode) under generated interleavings; ledger oracle: after ~ThreadPool returns every submitted functor ran exactly once and none starts later.",
-                      [e1("pool", "prog")], "§4 C01"),
+                      "Generated multi-producer programs over schedule / schedule(FQ) / scheduleBulk (external and in-pool producers, pools of 0-6 threads, wake and poll mode) under generated interleavings; ledger oracle: after ~ThreadPool returns every submitted functor ran exactly once and none starts later. Second part: the task-set programs of C02 (TaskSet / ConcurrentTaskSet single, bulk and force-queued submissions reach the pool through its ring-bulk and placed-scheduling entry points, which the plain pool API does not exercise) under the same ledger; a functor the pool loses there shows as a wait() that never returns (explorer livelock report) or as a ledger miss.",
+                      [e1("pool", "prog"), dict(harness="pool", variant="dsched", part="prog", prop="C02", quick=1500, thorough=60000)], "§4 C01"),
     "C02": pool_check("Task-set wait is a completion barrier",
                       "Programs with TaskSet / ConcurrentTaskSet (light, heavy), single/bulk/FQ submissions, shared sets, nested sets and parallel_for; at the return of every wait(), tryWait()==true and destructor all tasks submitted before have finished, each body ran once.",
                       [e1("pool", "prog"), e1("pool", "forkjoin")], "§4 C02"),
